@@ -1258,6 +1258,13 @@ def build_operator_operand_fixup(capture_error_state):
             # element by element, also when the other operand is an error
             return array_fixup(left_op, op, right_op)
 
+        if isinstance(left_op, np.generic):
+            # numpy scalars (from SLOPE, FACTDOUBLE, ...) as python values
+            left_op = left_op.item()
+
+        if isinstance(right_op, np.generic):
+            right_op = right_op.item()
+
         if left_op in ERROR_CODES:
             return left_op
 
